@@ -220,12 +220,16 @@ def renditions(tier):
     return out
 
 
-def moved_input(params, sign):
+def moved_input(params, sign, partner=False):
+    """partner: the moved line has a similar line of the other kind next to it (plainly coloured by git), so that
+    delta's edit inference treats the two as a pair"""
     esc = b"\x1b[" + params.encode() + b"m"
     head = b"diff --git a/f b/f\n--- a/f\n+++ b/f\n@@ -1,2 +1,2 @@\n ctx\n"
     if sign == "-":
-        return head + esc + b"-moved text" + b"\x1b[m\n ctx2\n"
-    return head + esc + b"+" + b"\x1b[m" + esc + b"moved text" + b"\x1b[m\n ctx2\n"
+        tail = b"\x1b[32m+\x1b[m\x1b[32mmoved text partner\x1b[m\n" if partner else b""
+        return head + esc + b"-moved text" + b"\x1b[m\n" + tail + b" ctx2\n"
+    pre = b"\x1b[31m-moved text partner\x1b[m\n" if partner else b""
+    return head + pre + esc + b"+" + b"\x1b[m" + esc + b"moved text" + b"\x1b[m\n ctx2\n"
 
 
 def is_plain(params, want, sign):
@@ -236,7 +240,7 @@ def is_plain(params, want, sign):
 
 def run_moved(task):
     label, ov, rends, mapping, deadline = task
-    opts = dict(ov)
+    opts = {k: v for k, v in ov.items() if not k.startswith("_")}
     if mapping:
         opts["map-styles"] = ", ".join("%s => %s" % (v[2], v[0]) for k, v in mapping.items())
     args = build_args(base_opts(opts))
@@ -253,8 +257,10 @@ def run_moved(task):
             for sign in "-+":
                 if is_plain(params, want, sign):
                     continue
-                inputs.append(moved_input(params, sign))
-                meta.append((params, want, sign))
+                for partner in ((False, True) if (i == 0 or ov.get("_partners")) and not ov.get("side-by-side")
+                                else (False,)):
+                    inputs.append(moved_input(params, sign, partner))
+                    meta.append((params, want, sign))
         res = explore.render_robust(drv, cid, inputs)
         for (params, want, sign), r in zip(meta, res):
             n += 1
@@ -264,7 +270,7 @@ def run_moved(task):
                 err = None
                 found = False
                 for row in term.decode(r.out):
-                    if "moved text" in row.text:
+                    if "moved text" in row.text and "partner" not in row.text:
                         found = True
                         styles = set(st for t, st in row.runs if "moved" in t or "text" in t)
                         exp = mapping[params][1] if mapping and params in mapping else want
@@ -272,6 +278,10 @@ def run_moved(task):
                             # the documented kill-switch: input colours are not examined at all, a moved line is
                             # an ordinary removed / added line (reserved plain styles of lattice.py)
                             exp = (None, ("i", 101 if sign == "-" else 104), 0)
+                            # (paired with a similar line, its unchanged part carries the non-emph style)
+                            ok_bgs = (101, 102, 103) if sign == "-" else (104, 105, 106)
+                            if all(s_[0] is None and s_[1] in [("i", b) for b in ok_bgs] and s_[2] == 0 for s_ in styles):
+                                styles = {exp}
                         if styles != {exp}:
                             err = "moved %s line coloured ESC[%sm is shown with %s, expected %s" % (
                                 sign, params, sorted(term.style_str(s) for s in styles), term.style_str(exp))
@@ -401,7 +411,8 @@ def main(tier):
     res = explore.pmap(run_equal, split)
     rends = renditions(tier)
     # input rendition -> (style it is mapped to, that style decoded, the rendition in delta's language)
-    mapping = {"1;35": ("bold 160 19", (("i", 160), ("i", 19), term.BOLD), "bold purple"),
+    mapping = {"38;2;1;2;3": ("bold 163", (("i", 163), None, term.BOLD), "#010203"),
+               "1;35": ("bold 160 19", (("i", 160), ("i", 19), term.BOLD), "bold purple"),
                "1;36": ("italic 161", (("i", 161), None, term.ITALIC), "bold cyan"),
                "38;5;200": ("162 ul", (("i", 162), None, term.UL), "200")}
     mres = explore.pmap(run_moved, [
@@ -411,6 +422,7 @@ def main(tier):
         ("moved,true-color", {"true-color": "always"}, rends, None, deadline),
         ("moved,map-styles", {}, [r for r in rends if r[0] in mapping] + rends[:40], mapping, deadline),
         ("moved,inspect-raw-lines=false", {"inspect-raw-lines": "false"}, rends[::2], None, deadline),
+        ("moved,partners", {"_partners": True}, rends[::4], None, deadline),
     ])
     outs = make_repo()
     lres = explore.pmap(run_log, [(label, ov, outs) for label, ov, k in configs if k <= 1])
